@@ -381,8 +381,9 @@ def analyse(src, module, stmts=None, script=None, on_empty=None, horizon=60000,
         by_ev = {k: v[0] for k, v in by_ev.items() if len(v) == 1}
         g = by_ev.get(('timer',))
         if g is not None:
-            # other statements that call TIMER without announcing it
-            anc = set(bs.ancestors(stmts, g['id'])) | {g['id']}
+            # other statements that call TIMER without announcing it (the
+            # text of a one-line IF includes the text of its statements)
+            anc = {a for a in bs.ancestors(stmts, g['id']) if stmts[a]['kind'] == 'if1'} | {g['id']}
             if any('TIMER' in o['text'] and o['id'] not in anc for o in stmts):
                 del by_ev[('timer',)]
 
